@@ -1571,6 +1571,13 @@ func (c *twoPhaseCommitter) checkAsyncCommit() bool {
 		!c.shouldWriteBinlog() {
 		totalKeySize := uint64(0)
 		for i := 0; i < c.mutations.Len(); i++ {
+			// A non-locking existence check leaves nothing behind in the store. If its prewrite fails but the
+			// answer is lost (or the client crashes), async-commit recovery finds every secondary locked and
+			// commits the transaction although its constraint check failed. Such transactions use 2PC, where
+			// nothing commits before every prewrite, checks included, is known to have succeeded.
+			if c.mutations.GetOp(i) == kvrpcpb.Op_CheckNotExists {
+				return false
+			}
 			totalKeySize += uint64(len(c.mutations.GetKey(i)))
 			if totalKeySize > asyncCommitCfg.TotalKeySizeLimit {
 				return false
